@@ -64,6 +64,10 @@ TrDeliverResponse ==
     /\ EmitOK(X.emit) /\ StOK(X.m.to, X.st)
 
 TrDrop == IsEvent("Drop") /\ Drop(MsgOf(X.m))
+TrDeliverCancelled ==
+    /\ IsEvent("DeliverCancelled")
+    /\ DeliverCancelled(MsgOf(X.m), X.mode)
+    /\ EmitOK(X.emit) /\ StOK(X.m.to, X.st)
 TrDup == IsEvent("Dup") /\ Dup(MsgOf(X.m))
 
 TrSyncWithPeer ==
@@ -82,7 +86,7 @@ TrDeliverNoTree == IsEvent("DeliverNoTree") /\ DeliverNoTree(MsgOf(X.m))
 
 TraceNext == \/ TrReset \/ TrAddContent \/ TrDeliverHeadUpdate \/ TrDeliverRequest
              \/ TrDeliverResponse \/ TrDrop \/ TrDup \/ TrSyncWithPeer \/ TrEnterPhase2
-             \/ TrFetchTree \/ TrDeliverNoTree
+             \/ TrFetchTree \/ TrDeliverNoTree \/ TrDeliverCancelled
 TraceSpec == TraceInit /\ [][TraceNext]_tvars
 
 Mark == HwMark(l)
